@@ -134,9 +134,38 @@ RawCases ==
      \o SetToSeq({ [op |-> "raw.fpmul", a |-> LE(x[1], 48), b |-> LE(x[2], 48), p |-> LE(p, 48), inv |-> LE(inv, 48), alias |-> al, src |-> "gen"] :
                    x \in BWCore(p, 48) \X BWCore(p, 48), al \in 0..3 })
      \o SetToSeq({ [op |-> "raw.fpsqr", a |-> LE(x, 48), p |-> LE(p, 48), inv |-> LE(inv, 48), alias |-> al, src |-> "gen"] : x \in fam, al \in {0, 1} })
+     \* entry state of the carry flag (x86-64 assembly entry points only): the calling convention leaves the arithmetic flags undefined at a
+     \* call, the portable and AArch64 routines have no such input - the result is a function of the operands alone
+     \o SetToSeq({ [op |-> o, impl |-> "base", a |-> LE(x[1], 48), b |-> LE(x[2], 48), cf |-> c, alias |-> 0, src |-> "gen"] :
+                   o \in {"raw.add", "raw.sub"}, x \in RawFam \X RawFam, c \in {0, 1} })
+     \o SetToSeq({ [op |-> "raw.shl1", impl |-> "base", a |-> LE(x, 48), cf |-> c, alias |-> 0, src |-> "gen"] : x \in RawFam, c \in {0, 1} })
+     \o SetToSeq({ [op |-> o, impl |-> "base", a |-> LE(x[1], 48), b |-> LE(x[2], 48), p |-> LE(p, 48), cf |-> c, alias |-> 0, src |-> "gen"] :
+                   o \in {"raw.fpadd", "raw.fpsub"}, x \in BWCore(p, 48) \X BWCore(p, 48), c \in {0, 1} })
+     \o SetToSeq({ [op |-> "raw.fpdbl", impl |-> "base", a |-> LE(x, 48), p |-> LE(p, 48), cf |-> c, alias |-> 0, src |-> "gen"] : x \in BWCore(p, 48) \cup RawFam, c \in {0, 1} })
+     \o SetToSeq({ [op |-> "raw.mul", impl |-> im, a |-> LE(x[1], 48), b |-> LE(x[2], 48), cf |-> c, src |-> "gen"] : im \in {"base", "bmi2"}, x \in BWCore(p, 48) \X BWCore(p, 48), c \in {0, 1} })
+     \o SetToSeq({ [op |-> "raw.sqr", impl |-> im, a |-> LE(x, 48), cf |-> c, src |-> "gen"] : im \in {"base", "bmi2"}, x \in RawFam, c \in {0, 1} })
+     \o SetToSeq({ [op |-> "raw.redc", impl |-> im, w |-> LE(Mul(x[1], x[2]), 96), p |-> LE(p, 48), inv |-> LE(inv, 48), cf |-> c, src |-> "gen"] :
+                   im \in {"base", "bmi2"}, x \in BWCore(p, 48) \X BWCore(p, 48), c \in {0, 1} })
      \o << [op |-> "raw.dispatch", src |-> "gen"] >>
 
-Cases == FieldCases("fq", QMod, 48) \o FieldCases("fr", RMod, 32) \o RawCases
+\* ---- Tonelli-Shanks worst cases --------------------------------------------------------------------
+\* Fr::square_root walks down the 2-Sylow subgroup with the root of unity z the CODE uses; the number of passes of its loop is governed by
+\* the discrete logarithm of a^t to the base z (r - 1 = 2^s t), the longest walk being a^t = z^2.  The inputs that reach it are therefore
+\* stated relative to the code's own z, read from the source text (env CONSTS: the rows of tools/extract_consts.py; without it: none).
+\* What is checked on them is the model's  sqrt(a)^2 = a  (Trace_Field), nothing about z.
+ConstRows == IF "CONSTS" \in DOMAIN IOEnv THEN ndJsonDeserialize(IOEnv.CONSTS) ELSE <<>>
+TsCases ==
+  LET rr  == ModN(Pow2(256), RMod)
+      St(v) == MulMod(v, rr, RMod)                                  \* value -> Montgomery storage
+      zs  == { FromLE(ConstRows[i].vals[1]) : i \in { j \in 1..Len(ConstRows) : ConstRows[j].name = "fr_root_of_unity" /\ ConstRows[j].n = 1 } }
+      odd(u) == ModExp(FromNat(u), Pow2(32), RMod)                  \* an element of odd order
+      fam(z) == LET zi == ModInv(MulMod(z, ModInv(rr, RMod), RMod), RMod) IN          \* z^-1 as a value
+                { ModExp(zi, FromNat(2 * k), RMod) : k \in 1..6 }
+                \cup { MulMod(ModExp(zi, FromNat(2 * k), RMod), odd(u), RMod) : k \in 1..3, u \in {3, 5, 7} }
+                \cup { ModExp(zi, Sub(Pow2(32), FromNat(2 * k)), RMod) : k \in 1..3 } \cup { ModExp(zi, Add(Pow2(31), Two), RMod), ModExp(zi, Pow2(31), RMod) }
+  IN SetToSeq({ [op |-> "fp.sqrt", f |-> "fr", a |-> LE(St(v), 32), alias |-> 0, cls |-> "two-sylow-walk", src |-> "gen"] : v \in UNION { fam(z) : z \in { y \in zs : Lt(y, RMod) /\ ~IsZero(y) } } })
+
+Cases == FieldCases("fq", QMod, 48) \o FieldCases("fr", RMod, 32) \o TsCases \o RawCases
 ASSUME PrintT(<<"cases", Len(Cases)>>)
 ASSUME ndJsonSerialize(IOEnv.OUT, Cases)
 =============================================================================
